@@ -10,7 +10,7 @@ from typing import Dict, List, Optional, Set, Tuple
 
 from ..astutil import Origins, call_name, const_num, names_in
 from ..cfg import Conditions, ReachingDefs
-from ..loader import FuncInfo, Program, enclosing_stmt, parent, short, walk_own
+from ..loader import FuncInfo, Program, dotted, enclosing_stmt, parent, short, walk_own
 from ..report import BAD, INFO, OK, UNDET, Instance
 from .guards import conds_at
 
@@ -719,4 +719,47 @@ def locate_siblings(prog: Program) -> List[Instance]:
     ok = ta == tb == want and ra and rb
     out.append(Instance("R-SIBLING", "roi:Tiles.locate~VariableSizedTiles.locate#range-guard", OK if ok else BAD,
                         "both reject pixels with coordinate < 0 or >= extent of the same axis with IndexError" if ok else f"range guards differ or are incomplete: {sorted(ta)} vs {sorted(tb)}", a.where()))
+    return out
+
+
+# ---------------------------------------------------------------------------------------------
+# sibling agreement: on which side of the dst->src transform the read-shrink rescaling is composed
+# ---------------------------------------------------------------------------------------------
+def _reciprocal_scale(e: ast.AST) -> Optional[str]:
+    """`Affine.scale(1 / k[, 1 / k])` -> name of k."""
+    if not (isinstance(e, ast.Call) and (dotted(e.func) or "").endswith("Affine.scale") and e.args):
+        return None
+    ks = set()
+    for a in e.args:
+        if isinstance(a, ast.BinOp) and isinstance(a.op, ast.Div) and const_num(a.left) == 1 and isinstance(a.right, ast.Name):
+            ks.add(a.right.id)
+        else:
+            return None
+    return ks.pop() if len(ks) == 1 else None
+
+
+def shrink_side_agreement(prog: Program) -> List[Instance]:
+    """_can_paste validates the transform `scale(1/k) * A` (translation measured in overview pixels);
+    compute_reproject_roi must plan with the same product. Affine multiplication does not commute:
+    with the factors the other way round the linear part is identical but the translation stays in
+    full-resolution pixels, so the regions are displaced although every shape relation still holds."""
+    out: List[Instance] = []
+    sites: List[Tuple[FuncInfo, ast.BinOp, str]] = []
+    for fi in prog.all_functions({"overlap"}):
+        for n in walk_own(fi.node):
+            if isinstance(n, ast.BinOp) and isinstance(n.op, ast.Mult):
+                if _reciprocal_scale(n.left) and _reciprocal_scale(n.right) is None:
+                    sites.append((fi, n, "left"))
+                elif _reciprocal_scale(n.right) and _reciprocal_scale(n.left) is None:
+                    sites.append((fi, n, "right"))
+    ref = [s for s in sites if s[0].name == "_can_paste"]
+    if not ref or len(sites) < 2:
+        out.append(Instance("R-SIBLING", "overlap#shrink-side", INFO, f"{len(sites)} reciprocal-scale composition site(s); nothing to cross-check", ""))
+        return out
+    side = ref[0][2]
+    for fi, n, sd in sites:
+        ok = sd == side
+        out.append(Instance("R-SIBLING", f"{fi.qual}#shrink-side:{_reciprocal_scale(n.left) or _reciprocal_scale(n.right)}", OK if ok else BAD,
+                            f"read-shrink rescaling composed on the {sd} (output/source side), as validated by _can_paste" if ok else
+                            f"`{short(n, 60)}` composes the read-shrink rescaling on the {sd} while _can_paste validates it on the {side}: the translation is not divided by the shrink factor, regions are displaced", fi.where(n)))
     return out
